@@ -400,3 +400,42 @@ fn cmp_init() {
     }));
     report(r);
 }
+
+/// flush then cut: everything written before the flush must be recoverable from the bytes the sink
+/// holds at that moment (observed through a shared buffer: into_raw() would close the stream)
+#[test]
+fn cmp_flush() {
+    use std::cell::RefCell;
+    use std::rc::Rc;
+    struct Shared(Rc<RefCell<Vec<u8>>>);
+    impl Write for Shared {
+        fn write(&mut self, buf: &[u8]) -> std::io::Result<usize> {
+            self.0.borrow_mut().extend_from_slice(buf);
+            Ok(buf.len())
+        }
+        fn flush(&mut self) -> std::io::Result<()> {
+            Ok(())
+        }
+    }
+    let r = catch_unwind(AssertUnwindSafe(|| -> Option<String> {
+        let w0 = v_u64("written", BLOCK).clamp(1, BLOCK);
+        for (len, entropy) in [(BLOCK, 1u64), (w0, 1), (2 * BLOCK, 0), (BLOCK - 1, 1), (BLOCK + 1, 1)] {
+            let data = data_of(len, entropy);
+            let store = Rc::new(RefCell::new(Vec::new()));
+            let mut w = Box::new(CompressionLayerWriter::new(Box::new(RawLayerWriter::new(Shared(store.clone()))), &CompressionConfig::default()));
+            w.write_all(&data).unwrap();
+            w.flush().unwrap();
+            let cut = store.borrow().clone();
+            let (out, _err) = failsafe_all(&cut, usize::MAX, 1 << 16);
+            if out != data {
+                return Some(format!(
+                    "{len} bytes written to the compression layer, flush() returned, destination cut there ({} bytes): repair-side decompression recovers {} bytes",
+                    cut.len(), out.len()
+                ));
+            }
+            drop(w);
+        }
+        None
+    }));
+    report(r);
+}
